@@ -319,6 +319,68 @@ def h_schedule(ctx, driver, names, fault, sym_calls=3):
     return " ".join("%s=%s" % kv for kv in sorted(fin.items())) + " | " + "".join(c for c, _, _ in log.emissions)
 
 
+LIBSEQS = {
+    "commissioning": lambda: SQ.Commissioning(available_addresses=[5], readdress=True),
+    "commissioning-new": lambda: SQ.Commissioning(available_addresses=[5, 6]),
+    "set-groups": lambda: SQ.SetGroups(A.GearGroup(3), {1, 2}),
+}
+
+
+def h_library_sequence_cancel(ctx, driver, which):
+    """One of the library's own sequences runs through the driver (nothing answers on the bus) and its caller is
+    cancelled at a solver-chosen moment, while a second caller waits with a plain command: the cancellation
+    ends the first caller as cancelled (the sequence lets itself be closed), the lock is released and the
+    second caller's frame goes out after the first one's, not in between."""
+    log = Log()
+    rec = Recorder(ctx, log)
+    rec.sym_calls = 0
+    cancel_after = ctx.fresh("cancel_after", 0, 30)
+    cancel_after = getattr(cancel_after, "concretize", lambda: cancel_after)()
+    out = {}
+
+    async def main(loop):
+        d = _make_driver(driver, loop, rec)
+        ta = asyncio.ensure_future(d.run_sequence(LIBSEQS[which]()))
+        ta.caller_name = "A"
+        await asyncio.sleep(0)
+        tb = asyncio.ensure_future(d.send(gg.Off(A.GearShort(6))))
+        tb.caller_name = "B"
+        for _ in range(cancel_after):
+            await asyncio.sleep(0)
+        ta.cancel()
+        await asyncio.sleep(5.0)
+        fin = {}
+        for k, t in (("A", ta), ("B", tb)):
+            if not t.done():
+                fin[k] = "pending"
+                t.cancel()
+            elif t.cancelled():
+                fin[k] = "cancelled"
+            elif t.exception() is not None:
+                fin[k] = "exc:" + type(t.exception()).__name__
+            else:
+                fin[k] = "ok"
+        out["fin"] = fin
+        out["locked"] = d.transaction_lock.locked()
+        if isinstance(d, H.hid):
+            d.disconnect()
+        await vloop.settle(2)
+    st, r = call(vloop.run, main)
+    tag = "%s/library-%s-cancelled" % (driver, which)
+    if st == "exc":
+        ctx.fail("harness run raised %r" % (r,), key=tag + "/run-raised:" + type(r).__name__)
+        return "raised"
+    fin = out["fin"]
+    ctx.prove(fin["A"] in ("cancelled", "ok"), "the cancelled sequence caller ended as %s" % fin["A"],
+              key=tag + "/cancel-outcome:" + fin["A"])
+    ctx.prove(fin["B"] == "ok", "the waiting caller ended as %s" % fin["B"], key=tag + "/other-caller:" + fin["B"])
+    ctx.prove(out["locked"] is False, "transaction lock still held", key=tag + "/lock-held")
+    em = [c for c, _, _ in log.emissions]
+    ctx.prove("B" in em and "A" not in em[em.index("B"):], "frames of the two callers are interleaved (%s)" % "".join(em),
+              key=tag + "/interleaved")
+    return "%s %s n=%d" % (fin["A"], fin["B"], len(em))
+
+
 # real gateway layer ------------------------------------------------------------------------------
 
 def h_real_sci(ctx, which, bprog="seq-dt"):
@@ -602,6 +664,13 @@ def _stage2(ctx, log, progs, tag):
               key=tag + "/stage2")
 
 
+def h_cancelled_then_lost(ctx):
+    """(shared with the gateway-loss check) sends cancelled mid-command, the adapter lost before it reported:
+    afterwards every caller still completes and the lock is free."""
+    from harness.c17_loss import h_tridonic_cancel_loss
+    return h_tridonic_cancel_loss(ctx, 2)
+
+
 def cases(tier):
     cs = []
     pairs = [("send0", "seq-dt"), ("send6", "seq-plain"), ("seq-dt", "seq-twice"), ("send6", "send0"),
@@ -634,6 +703,13 @@ def cases(tier):
     for which in ("hasseb", "tridonic"):
         cs.append(Case("%s-unsupported-width-noexc" % which, h_unsupported_width, {"which": which},
                        install=rigs.install_tridonic_structs))
+    for drv in ("hid", "luba", "sci"):
+        for which in LIBSEQS:
+            if drv != "hid" and which != "commissioning" and tier == "quick":
+                continue
+            cs.append(Case("%s-library-%s-cancelled" % (drv, which), h_library_sequence_cancel,
+                           {"driver": drv, "which": which}))
+    cs.append(Case("tridonic-cancelled-then-lost", h_cancelled_then_lost, {}, install=rigs.install_tridonic_structs))
     for bprog in ("send-plain", "send6", "seq-twice"):
         cs.append(Case("hid-real-layer-%s" % bprog, h_real_hid, {"bprog": bprog},
                        install=rigs.install_tridonic_structs))
